@@ -117,10 +117,16 @@ def run(job):
                     steps.append(["restart"])
                 if rng.random() < 0.06:
                     steps.append(["in", "255;255;3;0;3;"])
-            steps.append(["stop"])
+            if h % 4 == 1:
+                # the device sends one more state-changing line while stop() is running
+                steps.append(["stop", rng.choice([f"9;255;0;0;17;{cfg['version']}", "1;255;3;0;0;33", "255;255;3;0;3;", "1;1;1;0;0;77"])])
+                res.count("stops_with_a_late_line")
+            else:
+                steps.append(["stop"])
             out = run_one(cfg, steps, tmp)
             res.evals += 1
             res.count("histories")
+            res.count("late_lines_delivered", out.get("late_lines_delivered", 0))
             res.count("ticks", out["ticks"])
             judge(res, cfg, steps, out, "random")
             ticks = tuple(i for i, s in enumerate(steps) if s[0] == "tick")[-3:]
@@ -149,11 +155,12 @@ def finish(agg, tier):
         "rule": "(a) bounded-exhaustive: every handler kind that changes persisted state (node/child presentation, set, battery, "
                 "sketch name/version, heartbeat, id request, re-presentation) as the last change before stop(), with 0/1/2 save "
                 "ticks before it or one after it, x format x flavour x version; (b) random lock-step histories with ticks and "
-                "restarts at arbitrary positions ended by the real stop(). Oracle: strict (type-tagged) projection held before "
+                "restarts at arbitrary positions ended by the real stop(); in a quarter of them the device sends one more state-changing "
+                "line while stop() runs (right after a save completes, delivered only if the transport is still open). Oracle: strict (type-tagged) projection held before "
                 "stop() == projection of a fresh gateway after start_persistence() on the same file. distinct = (last "
                 "state-changing kind, tick pattern, format, flavour, version/history).",
         "floors": [("stops_judged", c.get("stops_judged", 0), 2000), ("last_change_cases", c.get("last_change_cases", 0), 600),
-                   ("ticks", c.get("ticks", 0), 1500)],
+                   ("ticks", c.get("ticks", 0), 1500), ("stops_with_a_late_line", c.get("stops_with_a_late_line", 0), 150)],
         "assumptions": ["save ticks = the real schedule_save body (threaded, captured Timer) / the real save loop on a virtual-time "
                         "asyncio loop with run_in_executor inline"],
         "show": ["histories", "stops_judged", "last_change_cases", "ticks"],
